@@ -94,74 +94,51 @@ Theorem cached_keeps_own_records :
 Proof. exact cacheable_complete. Qed.
 Print Assumptions cached_keeps_own_records.
 
-(* CONTAINMENT.  Full statement (DESIGN 5, C07): for a server authoritative for [auth], asked a
-   question inside [auth], and ANY message m it sends, no record r of m owned outside [auth] is
+(* CONTAINMENT.  For a server authoritative for [auth] - the zone any descent (searchCache seed,
+   new or cached referrals, minimisation steps) arrives at - asked a question inside [auth], and ANY
+   message m it sends, no record r of m owned outside [auth] is
      (a) relayed to the client in the Answer,
-     (b) cached under its own name or kept for another question,
-     (c) used as glue,
-     (d) part of a delegation that is followed or cached.
-   (a) is false of the code and of the model: see containment_relay_refuted below.
-   (b), (c), (d) are proved; (c) needs the bookkeeping level to be at least the zone's depth,
-   which the descent maintains except in the situation of descent_level_refuted. *)
-Theorem containment_cache_partial :
-  forall auth q m, is_sub auth (q_name q) = true ->
-  forall r, is_sub auth (rr_owner r) = false ->
-  In r (cached_for q (relayed_answer auth q m)) ->
-  name_eqb (q_name q) (rr_owner r) = false /\ dname_material r /\ In r (u_answer m).
-Proof. exact contained_cache. Qed.
-Print Assumptions containment_cache_partial.
+     (b) cached (neither under its own name nor under the question's key),
+     (c) used as glue: no address is learnt for its owner, at the level that descent hands to the
+         glue test,
+     (d) part of a delegation that is followed or cached: an accepted referral is one NS set owned
+         strictly inside [auth] on the path to the question, and no NS record owned outside is in it. *)
+Theorem containment :
+  forall start steps q m r ipv6 local,
+  let auth := fst (descent start steps) in
+  let level := snd (descent start steps) in
+  is_sub auth (q_name q) = true ->
+  is_sub auth (rr_owner r) = false ->
+  ~ In r (relayed_answer auth q m) /\
+  ~ In r (cached_for q (relayed_answer auth q m)) /\
+  (forall o g, referral_glue ipv6 local level auth q m = Some (o, g) ->
+     ~ In (canon (rr_owner r)) (gr_found4 g ++ gr_found6 g ++ map fst (gr_addrs4 g) ++ map fst (gr_addrs6 g))) /\
+  (forall i, dispose auth q m = DReferral i ->
+     exists owner, di_owner i = Some owner /\ is_sub auth owner = true /\ name_eqb owner auth = false /\
+       is_sub owner (q_name q) = true /\ (In r (u_ns m) -> ~ is_ns r)).
+Proof. exact containment_all. Qed.
+Print Assumptions containment.
 
-Theorem containment_glue_partial :
+(* What reaches the client's Answer comes from the Answer section (never Authority / Additional)
+   and is owned inside the answering zone *)
+Theorem relay_only_in_zone_answer_records :
+  forall auth q m r, In r (relayed_answer auth q m) -> In r (u_answer m) /\ is_sub auth (rr_owner r) = true.
+Proof. exact relayed_sound. Qed.
+Print Assumptions relay_only_in_zone_answer_records.
+
+(* The level handed to the glue test never is shallower than the zone whose servers are asked,
+   after any sequence of new referrals, cached referrals (however many labels they cross) and
+   minimisation steps *)
+Theorem descent_level_invariant : forall zone steps, level_ok (descent zone steps).
+Proof. exact descent_level_ok. Qed.
+Print Assumptions descent_level_invariant.
+
+(* glue containment for an explicitly given level (the form the unit driver exercises) *)
+Theorem containment_glue_at_level :
   forall auth q m, is_sub auth (q_name q) = true ->
   forall r, is_sub auth (rr_owner r) = false ->
   forall ipv6 local level o g, (length auth <= level)%nat ->
   referral_glue ipv6 local level auth q m = Some (o, g) ->
   ~ In (canon (rr_owner r)) (gr_found4 g ++ gr_found6 g ++ map fst (gr_addrs4 g) ++ map fst (gr_addrs6 g)).
 Proof. exact contained_glue. Qed.
-Print Assumptions containment_glue_partial.
-
-Theorem containment_delegation_partial :
-  forall auth q m r, is_sub auth (rr_owner r) = false ->
-  forall i, dispose auth q m = DReferral i ->
-  exists owner, di_owner i = Some owner /\ is_sub auth owner = true /\ name_eqb owner auth = false /\
-    is_sub owner (q_name q) = true /\ (In r (u_ns m) -> ~ is_ns r).
-Proof. exact contained_delegation. Qed.
-Print Assumptions containment_delegation_partial.
-
-(* Authority and Additional of an upstream message never reach the client's Answer *)
-Theorem relay_only_answer_section :
-  forall auth q m r, In r (relayed_answer auth q m) -> In r (u_answer m).
-Proof. exact relayed_from_answer_section. Qed.
-Print Assumptions relay_only_answer_section.
-
-(* (a) fails: the server for evil.l1. answers "x.evil.l1. A" with an alias to www.victim.l2. and an
-   address for www.victim.l2.; both records are handed to the client (the model is exact here:
-   no alias chase is started because a record of the asked type is present).  Replayed on the Go
-   code by the lab driver: finding answer-relays-out-of-zone-tail. *)
-Theorem containment_relay_refuted :
-  is_sub w_auth (q_name w_q) = true /\ In w_tail (u_answer w_msg) /\ is_sub w_auth (rr_owner w_tail) = false /\
-  In w_tail (relayed_answer w_auth w_q w_msg) /\ relay_exact w_auth w_q w_msg = true.
-Proof. exact relay_counterexample. Qed.
-Print Assumptions containment_relay_refuted.
-
-(* The level handed to the glue test.  Full statement: after any descent, rs.level >= CountLabel
-   of the zone whose servers are asked.  False of the code and of the model: a referral that goes
-   down two labels met with the delegation already cached leaves the level one short. *)
-Theorem descent_level_refuted :
-  progressing_referral evil_l3 [] (evil_l3 ++ [[120]]) = true /\
-  descent [] [StepCached evil_l3] = (evil_l3, 1%nat) /\ ~ level_ok (descent [] [StepCached evil_l3]).
-Proof. exact descent_level_counterexample. Qed.
-Print Assumptions descent_level_refuted.
-
-(* It holds for every descent whose cached steps go down no further than the level does (all
-   single-label referrals, all descents that were minimised label by label) ... *)
-Theorem descent_level_partial :
-  forall zone steps, steps_guarded (descent_start zone) steps -> level_ok (descent zone steps).
-Proof. exact descent_level_guarded. Qed.
-Print Assumptions descent_level_partial.
-
-(* ... and unconditionally with the repair of props/C07/fix.patch *)
-Theorem descent_level_with_fix :
-  forall zone steps, level_ok (fold_left descent_step_fixed steps (descent_start zone)).
-Proof. exact descent_fixed_level. Qed.
-Print Assumptions descent_level_with_fix.
+Print Assumptions containment_glue_at_level.
